@@ -240,6 +240,16 @@ def run(case):
                    "legacy tilt_range= keyword gives a different mask",
                    "wedge.legacy-kw-ignored" if (c.shape == a.shape and c.all() and not a.all()) else None,
                    shape=shape, range=rg, kept_legacy=int(c.sum()), kept_tuple=int(a.sum()))
+        # curried factories
+        with warnings.catch_warnings():
+            warnings.simplefilter("ignore")
+            f1 = Model.with_params(tilt=single_axis(rg, "y"))(tmpl, None)
+            f2 = Model.with_params(tilt_range=rg)(tmpl, None)
+            f3 = Model.with_params(tilt=rg, cutoff=0.4)(tmpl, None)
+        for nm_, mm_ in (("with_params(tilt=model)", f1), ("with_params(tilt_range=)", f2), ("with_params(tilt=tuple)", f3)):
+            g = np.asarray(mm_.get_missing_wedge_mask(quat)).astype(bool)
+            case.check(g.shape == a.shape and np.array_equal(g, a), f"{nm_} gives a different mask", None,
+                       shape=shape, range=rg, kept=int(g.sum()), kept_tuple=int(a.sum()))
         F = np.fft.fftn(tmpl).astype(np.complex64)
         mm = np.asarray(m_tuple.mask_missing_wedge(F, quat))
         case.check(np.allclose(mm, F * a, atol=1e-5 * np.abs(F).max()),
